@@ -13,7 +13,7 @@ Open Scope Z_scope.
    are all default (CanonMStruct.canon_m_default_struct_partial).  The heap-level
    induction is in CanonMInd / CanonMList{P,R,B,C} / CanonMTop: CanonMTop.canon_m_correct_full proves this
    statement (with a non-negative traversal budget) for every value; the ..._if corollaries below are
-   superseded by the unconditional CanonMTop.canon_m_layout_independent / _value_preserved / _idempotent. *)
+   superseded by CanonMTop.canon_m_layout_independent / _value_preserved / _idempotent_given_readback. *)
 Definition canon_m_correct_statement : Prop :=
   forall fuel c fx m rl s v,
     all_cfixed fx -> cfg_strict c = true -> msg_ok m -> wf_ptr m s ->
